@@ -41,9 +41,10 @@ def echsx_alarm(B, shim, wd, vtodo, job='true'):
     shutil.rmtree(d, ignore_errors=True)
     return (al[0] if al else 0), starts, 'STATUS:CANCELLED' in jr
 
-def real_kill(B, shim, wd, L, W):
+def real_kill(B, shim, wd, L, W, stubborn=False):
     d = tempfile.mkdtemp(prefix='k', dir=wd)
-    v = '\n'.join(['BEGIN:VCALENDAR', 'VERSION:2.0', 'BEGIN:VTODO', 'UID:kill-%d-%d' % (L, W), 'SUMMARY:sleep %d' % W, 'X-ECHS-SETUID:%d' % os.getuid(), 'X-ECHS-SETGID:%d' % os.getgid(),
+    # stubborn: a job that does not care about the polite signal (SIGXCPU ignored); it has to be gone all the same
+    v = '\n'.join(['BEGIN:VCALENDAR', 'VERSION:2.0', 'BEGIN:VTODO', 'UID:kill-%d-%d' % (L, W), 'SUMMARY:' + ("trap '' XCPU\\; sleep %d" % W if stubborn else 'sleep %d' % W), 'X-ECHS-SETUID:%d' % os.getuid(), 'X-ECHS-SETGID:%d' % os.getgid(),
                    'X-ECHS-SHELL:/bin/sh', 'LOCATION:' + d, 'DURATION:PT%dS' % L, 'X-ECHS-UMASK:022', 'X-ECHS-MAIL-RUN:0', 'X-ECHS-MAIL-OUT:0', 'X-ECHS-MAIL-ERR:0', 'ORGANIZER:echse', 'END:VTODO', 'END:VCALENDAR', ''])
     env = dict(os.environ, XSHIM_DIR=d, XSHIM_MAILER=execrun.MAILER, LD_PRELOAD=shim)
     t0 = time.time()
@@ -51,7 +52,7 @@ def real_kill(B, shim, wd, L, W):
     wall = time.time() - t0
     m = re.search(r'^X-EXIT-STATUS:(\d+)', p.stdout, re.M); ms = re.search(r'^X-SIGNAL:(\d+)', p.stdout, re.M)
     shutil.rmtree(d, ignore_errors=True)
-    return {'e': 'Kill', 'L': L, 'W': W, 'wallms': int(wall * 1000), 'jsig': int(ms.group(1)) if ms else 0, 'jexit': int(m.group(1)) if m else -1}
+    return {'e': 'Kill', 'L': L, 'W': W, 'stubborn': stubborn, 'wallms': int(wall * 1000), 'jsig': int(ms.group(1)) if ms else 0, 'jexit': int(m.group(1)) if m else -1}
 
 def run(tier, seed):
     t0 = time.time()
@@ -115,6 +116,7 @@ def run(tier, seed):
         recs += list(ex.map(due_case, dues))
     # real time: sleep W under limit L
     kills = [(1, 30), (2, 30), (5, 1), (3, 30)] if tier != 'thorough' else [(1, 30), (2, 30), (3, 30), (1, 30), (2, 30), (3, 30), (5, 1), (4, 2), (2, 1), (6, 30), (1, 30), (10, 3)]
+    kills = [lw + (False,) for lw in kills] + [(1, 30, True), (2, 6, True)]
     with cf.ThreadPoolExecutor(max_workers=len(kills)) as ex:
         recs += list(ex.map(lambda lw: real_kill(B, shim, xd, *lw), kills))
     # E3 on the executor loop: requests with several VTODOs taken from ExecSeqE1's request set, run by one real echsx each
